@@ -29,10 +29,10 @@ import pandas as pd
 import numpy as np
 
 
-from holopy.core.metadata import detector_grid, copy_metadata
+from holopy.core.metadata import copy_metadata
 from holopy.core.holopy_object import HoloPyObject, FullLoader
 from holopy.core.io.io import pack_attrs, unpack_attrs
-from holopy.core.utils import dict_without, ensure_scalar
+from holopy.core.utils import ensure_scalar
 from holopy.core.errors import raise_fitting_api_error
 from holopy.scattering.errors import MissingParameter
 
@@ -108,16 +108,10 @@ class FitResult(HoloPyObject):
         if hasattr(self.data, 'original_dims'):
             # dealing with subset data
             original_dims = self.data.original_dims
-            # can't currently handle non-0 values of z, as in detector_grid
-            x = original_dims['x']
-            y = original_dims['y']
-            shape = (len(x), len(y))
-            spacing = (np.diff(x)[0], np.diff(y)[0])
-            extra_dims = dict_without(original_dims, ['x', 'y', 'z'])
-            schema = detector_grid(shape, spacing, extra_dims=extra_dims)
+            shape = [len(coord) for coord in original_dims.values()]
+            schema = xr.DataArray(np.zeros(shape), dims=list(original_dims),
+                                  coords=original_dims)
             schema = copy_metadata(self.data, schema, do_coords=False)
-            schema['x'] = x
-            schema['y'] = y
         else:
             schema = self.data
         return self.model.forward(pars, schema)
